@@ -85,6 +85,12 @@ CHECKS = {
                 text="Generated hwmon trees with permuted enumeration order are read through the real enumeration and binding code; every generated selector must bind exactly the "
                      "paths a reference resolution derives from the tree description, or fail with an error naming the entry - never panic, never bind another device.",
                 note="Trusted base: harness and the pure-Go gosensors stand-in (libsensors is not installed): its feature numbering mirrors libsensors'."),
+    "C20": dict(level="exploration", ref="7 (C20)", engine="l2", technique="sanitizer: Go race detector (-race) on the real daemon under API / metrics load and on an in-process workload; reports deduplicated by innermost fan2go frame pair",
+                text="The race-built real daemon (5-6 fans of all kinds sharing curves and sensors, millisecond rates, stall episodes) serves list / item / metrics requests from 8 client "
+                     "threads while the plant moves; the race-built in-process harness wires the same activities at higher rates. Every report is identified by the pair of innermost "
+                     "fan2go frames; pairs outside the listed known classes, runtime aborts and panics are violations.",
+                note="Trusted base: the Go race detector (no false positives; misses races the run does not exercise), gosensors stand-in. The virtual driver and every other monitor "
+                     "lock are kept out of race builds. Known findings are grouped per unguarded field (known_findings.txt)."),
 }
 
 
